@@ -66,7 +66,7 @@ Controlled ==
 
 Terminal == ~EagerEnabled /\ ~ENABLED Controlled
 
-Tags == UNION {Verdicts(sent[s], from[s]) : s \in Streams}
+Tags == UNION {VerdictsL(sent[s], from[s], lo) : s \in Streams}
         \cup {m \in {"LiveComplete", "PutNeverWaitsOnConsumer", "OthersServed"} :
                 \/ m = "OthersServed" /\ ~Mon_ReplacementServed
                 \/ m = "LiveComplete" /\ ~Mon_LiveComplete
